@@ -281,6 +281,13 @@ def factory_closure(prog: Program, fac: FuncInfo) -> FuncInfo:
                 seen.add(key)
                 work += [(x, d.node) for x in ast.walk(d.value) if isinstance(x, ast.Name) and isinstance(x.ctx, ast.Load)]
         hit = [f for f in inner if f.name in reach]
+    if len(hit) > 1:
+        # several closures can be returned (an extra early-return wrapper next to the real one): the base wrapper is the one
+        # that reaches the wrapping core; the others show up as additional outcomes of the factory and are judged as such
+        core = [f for f in hit if any(isinstance(c, ast.Call) and isinstance(c.func, ast.Name) and c.func.id in ("wrap_paragraph", "wrap_paragraph_lines")
+                                      for c in ast.walk(f.node))]
+        if len(core) == 1:
+            return core[0]
     if len(hit) != 1:
         raise AnalysisError(f"{fac.qual}: cannot tell which of its inner functions {sorted(f.name for f in inner)} is the one it returns")
     return hit[0]
